@@ -144,6 +144,19 @@ func (c *Config) Get(format string) (info *Info, err error) {
 	if err = mergo.Merge(info, c.Info, mergo.WithOverride); err != nil {
 		return nil, fmt.Errorf("failed to merge config into info: %w", err)
 	}
+	// the key ids are pointers which the copy above shares with the config: give
+	// the copy its own, otherwise merging the overrides below writes through them
+	// into the config and into what every other format gets
+	for _, keyID := range []**string{
+		&info.Deb.Signature.KeyID,
+		&info.RPM.Signature.KeyID,
+		&info.APK.Signature.KeyID,
+	} {
+		if *keyID != nil {
+			id := **keyID
+			*keyID = &id
+		}
+	}
 	override, ok := c.Overrides[format]
 	if !ok {
 		// no overrides
